@@ -129,7 +129,7 @@ _NSI_IN = {"PL": "arr:float64:2", "self.node_weights": "arr:float64:1", "self.to
 _NSI_RQ = ["self.N>=1", "shape(PL,0)==self.N and shape(PL,1)==self.N", "shape(self.node_weights,0)==self.N"]
 _NSI_CF = {"self.path_lengths": {"returns": "arr:float64:2", "ensures": ["same_array(result, PL)", "shape(result,0)==self.N and shape(result,1)==self.N"]}}
 for _nm, _rq, _ens in (
-        ("nsi_closeness", [f"all(fsum(lambda j: {_DS}*self.node_weights[j], self.N)!=0 for q in range(self.N))"],
+        ("nsi_closeness", [],       # (a quotient on both sides: no assumption on the divisor is needed)
          [f"all(result[q]==self.total_node_weight/fsum(lambda j: {_DS}*self.node_weights[j], self.N) for q in range(self.N))"]),
         ("nsi_harmonic_closeness", [f"all({_DS}!=0 for q in range(self.N) for j in range(self.N))", "self.total_node_weight!=0"],
          [f"all(result[q]*self.total_node_weight==fsum(lambda j: 1.0/{_DS}*self.node_weights[j], self.N) for q in range(self.N))"])):
@@ -139,7 +139,6 @@ for _nm, _rq, _ens in (
     _c.region = "body"
     _c.required_asserts = []
     _c.rtc_py = True
-    _c.timeout_ms = 90000       # the quotient by a symbolic sum takes 1-5 s; budget sized for a loaded machine
 _c = _K("Network.nsi_global_efficiency[formula]", _NW, lang="py", func="Network.nsi_global_efficiency", props=("C03", "C02"),
         py_mode=True, vectors=True, inputs=dict(_NSI_IN),
         requires=_NSI_RQ + [f"all({_DS}!=0 for q in range(self.N) for j in range(self.N))", "self.total_node_weight!=0"],
